@@ -89,20 +89,25 @@ func substLits(toks []string, pool []string) []string {
 // precVariants lists the spellings of a tree.  richness 2 (<= 2 operators):
 // every style and every redundant pair, each with name and literal leaves;
 // 1 (3 operators): the same spellings, literal leaves only for the plain
-// ones; 0 (4 operators): fully parenthesised, minimal, minimal one token per
-// line (compiling one function costs ~0.3 ms, this keeps the thorough tier
+// ones and four styles; 0 (4 operators): fully parenthesised, minimal, minimal
+// one token per line, name leaves only (compiling one function costs ~0.3 ms,
+// this keeps the thorough tier
 // inside its budget; sub-tree redundancy and styles are local properties
 // covered exhaustively on the smaller trees).
 func precVariants(n *reflex.Node, rich int) []pvariant {
 	vs := []pvariant{{name: "full", toks: n.Tokens(true, nil), sty: "space", lits: 2}}
 	min := n.Tokens(false, nil)
 	if rich == 0 {
-		vs[0].lits = 1
-		vs = append(vs, pvariant{name: "min/space", toks: min, sty: "space", lits: 1})
+		vs[0].lits = 0
+		vs = append(vs, pvariant{name: "min/space", toks: min, sty: "space"})
 		vs = append(vs, pvariant{name: "min/nl", toks: min, sty: "nl"})
 		return vs
 	}
-	for _, s := range styles {
+	sts := styles
+	if rich == 1 {
+		sts = []string{"space", "nl", "longcomment", "compact"} // the other styles: <= 2 operators and statement-forms
+	}
+	for _, s := range sts {
 		l := 0
 		if rich == 2 || s == "space" || s == "compact" {
 			l = 2
@@ -251,7 +256,11 @@ func precFamilies(tier string) []*core.Family {
 		} else if k >= 4 {
 			rich = 0
 		}
-		fams = append(fams, &core.Family{Name: name, Size: T[k],
+		budget := 0
+		if k >= 4 {
+			budget = 900 // stops itself (exhaustive:false) on a loaded machine; ~7 min on 16 idle cores
+		}
+		fams = append(fams, &core.Family{Name: name, Size: T[k], BudgetSeconds: budget,
 			Show: func(i uint64) string {
 				n := reflex.Unrank(k, i)
 				return fmt.Sprintf("tree %s printed as: %s", strings.Join(n.Tokens(true, nil), " "), strings.Join(n.Tokens(false, nil), " "))
